@@ -414,6 +414,10 @@ static json gen_traj(const std::string &fname) {
     step += rl(1, 500);
   }
   c["frames"] = frames;
+  if (nf >= 2 && rbool(30)) {
+    c["append_at"] = ri(1, nf - 1);
+    c["append_new_writer"] = rbool(50);
+  }
   return c;
 }
 
@@ -589,10 +593,21 @@ static Result roundtrip_body(const json &c) {
     build_top(top, c);
     std::unique_ptr<votca::csg::TrajectoryWriter> w = votca::csg::TrjWriterFactory().Create(file);
     try {
+      // append_at = k > 0: the file is closed after k frames and opened again for appending (same or new writer object)
+      const size_t append_at = c.value("append_at", 0);
+      const bool can_append = fname != "dlph" && fname != "dlpc";  // DL_POLY: "appending ... not implemented" (documented throw)
       w->Open(file);
+      size_t k = 0;
       for (auto &f : frames) {
+        if (can_append && append_at > 0 && k > 0 && k % append_at == 0) {
+          w->Close();
+          if (c.value("append_new_writer", false)) w = votca::csg::TrjWriterFactory().Create(file);
+          w->Open(file, true);
+          r.cls("reopened-for-append");
+        }
         set_frame(top, c, f);
         w->Write(&top);
+        ++k;
       }
       w->Close();
     } catch (const std::exception &e) {
@@ -857,6 +872,10 @@ static json gen_mismatch() {
   if (fname == "xyz" && (known("XYZWriter/header-blank-line") || known("XYZWriter/topology-units"))) own = true;
   if (fname == "pdb" && known("PDB/reader-rejects-writer-output")) own = true;
   c["own_writer"] = own;
+  if (fname == "pdb" && own) {
+    c["pdb_end"] = pick<std::string>({"ENDMDL", "ENDMDL", "END", "none", "none", "none-nonl"});
+    if (rbool(60)) c["bad"] = nf - 1;  // the unterminated model is the mismatching one
+  }
   c["hasvel"] = (fname == "gro" || fname == "dump" || fname == "dlph" || fname == "dlpc") && rbool(40);
   int nmax = std::max(n, m);
   std::vector<double> x;
@@ -875,6 +894,7 @@ static Result mismatch_body(const json &c, int phase) {
   const std::string RN = fname == "gro" ? "GROReader" : fname == "pdb" ? "PDBReader" : fname == "xyz" ? "XYZReader" : fname == "dump" ? "LAMMPSDumpReader" : "DLPOLYTrajectoryReader";
   const int n = c.at("n_top"), m = c.at("n_frame"), nf = c.at("nframes"), bad = c.at("bad");
   const bool own = c.at("own_writer"), hv = c.at("hasvel");
+  const std::string pdb_end = c.value("pdb_end", "ENDMDL");
   const std::vector<double> X = c.at("x").get<std::vector<double>>();
   const int nmax = std::max(n, m);
   const double edge = c.at("edge");
@@ -883,6 +903,7 @@ static Result mismatch_body(const json &c, int phase) {
     r.cls(m > n ? "frame-has-more-atoms" : "frame-has-fewer-atoms");
     r.cls(bad == 0 ? "first-frame" : "later-frame");
     r.cls(own ? "own-writer" : "votca-writer");
+    if (fname == "pdb" && own) r.cls("pdb-last-model-closed-by:" + pdb_end);
     r.nontrivial = true;
   }
 
@@ -912,6 +933,13 @@ static Result mismatch_body(const json &c, int phase) {
         std::vector<std::string> names(size_t(cnt), "C");
         std::vector<double> x(X.begin() + 3 * k * nmax, X.begin() + 3 * k * nmax + 3 * cnt);
         txt += fname == "xyz" ? own_xyz_frame(names, x, k + 1) : own_pdb_frame(names, x, k + 1);
+        // the last model of a pdb file may be closed by ENDMDL, by END, or by nothing at all (single-structure files,
+        // files written through a writer's container interface, truncated downloads)
+        if (fname == "pdb" && k == nf - 1 && pdb_end != "ENDMDL") {
+          txt.resize(txt.size() - std::string("ENDMDL\n").size());
+          if (pdb_end == "END") txt += "END\n";
+          if (pdb_end == "none-nonl") txt.pop_back();
+        }
       }
       std::ofstream(file) << txt;
       return;
@@ -938,11 +966,15 @@ static Result mismatch_body(const json &c, int phase) {
     Topology t;
     make_top(t, n);
     std::vector<Snap> g = read_all(good, t, size_t(nf) + 2);
-    if (int(g.size()) != nf) throw std::runtime_error(fmt("control: %d frames written, %zu read", nf, g.size()));
+    // (a last model that is closed by nothing is delivered, but NextFrame reports the end of the file with it: such a
+    // file is foreign input, its frame count is not part of the statement)
+    const bool open_end = fname == "pdb" && own && pdb_end.rfind("none", 0) == 0;
+    if (int(g.size()) != nf && !(open_end && int(g.size()) == nf - 1))
+      throw std::runtime_error(fmt("control: %d frames written, %zu read", nf, g.size()));
     if (own) {
       // reader-only check on a file VOTCA's writers had no part in: positions in nm
       double tol = fname == "xyz" ? 0.5e-6 : 0.5e-4;
-      for (int k = 0; k < nf; ++k)
+      for (int k = 0; k < int(g.size()); ++k)
         for (int i = 0; i < 3 * n; ++i) {
           double e = X[size_t(3 * k * nmax + i)], gg = g[size_t(k)].x[size_t(i)];
           if (!within(gg, e, tol, 0)) {
